@@ -96,9 +96,15 @@ func main() {
 		selftest = flag.Bool("selftest", false, "run harness canaries")
 		list     = flag.Bool("list", false, "list check ids")
 		wd       = flag.Duration("watchdog", 20*time.Second, "per-step real-time limit")
+		findKF   = flag.String("find-known", "", "treat runs attributed to this known finding as failures (to minimise a witness)")
 	)
 	testing.Init()
 	flag.Parse()
+	for _, k := range strings.Split(os.Getenv("VERIF_KNOWN"), ",") {
+		if k != "" {
+			props.KnownActive[k] = true
+		}
+	}
 	sched.WatchdogLimit = *wd
 	sched.InstallHooks()
 
@@ -125,6 +131,22 @@ func main() {
 	if *out == "" {
 		fmt.Fprintln(os.Stderr, "-out required")
 		os.Exit(2)
+	}
+	if *findKF != "" {
+		inner := p.Run
+		kf := *findKF
+		q := *p
+		q.Run = func(ch chooser.Chooser, st *props.Stats) *props.Outcome {
+			o := inner(ch, st)
+			if o.Violation == nil && o.Known == kf {
+				o.Violation = &props.Violation{Class: "known:" + kf, Detail: o.KnownDetail}
+				o.Known = ""
+			} else {
+				o.Violation = nil
+			}
+			return o
+		}
+		p = &q
 	}
 	os.Exit(batch(p, *runs, *seed, *out))
 }
@@ -316,6 +338,10 @@ func doReplay(p *props.Property, path string) int {
 			fmt.Printf("REPLAY-KNOWN %s %s\n", o.Known, o.KnownDetail)
 			return 0
 		}
+		if exhausted {
+			fmt.Println("REPLAY-PASS the run continued past the point at which the recorded run failed")
+			return 0
+		}
 		fmt.Printf("REPLAY-PASS fingerprint=%016x\n", o.Hash)
 		return 0
 	}
@@ -328,6 +354,8 @@ func doReplay(p *props.Property, path string) int {
 	return 1
 }
 
+var exhausted bool
+
 func replayOnce(p *props.Property, cs []chooser.Choice) (o *props.Outcome, diverged string) {
 	defer func() {
 		switch r := recover().(type) {
@@ -335,7 +363,9 @@ func replayOnce(p *props.Property, cs []chooser.Choice) (o *props.Outcome, diver
 		case chooser.Diverged:
 			diverged = r.Error()
 		case chooser.Exhausted:
-			diverged = r.Error()
+			// The run got past the point at which the recorded run failed.
+			o, diverged = &props.Outcome{}, ""
+			exhausted = true
 		default:
 			panic(r)
 		}
